@@ -2,6 +2,7 @@ package rules
 
 import (
 	"fmt"
+	"sort"
 	"strings"
 
 	"cvcheck/internal/core"
@@ -35,5 +36,33 @@ func Dump(p *core.Prog, pat string) {
 				}
 			}
 		}
+	}
+}
+
+// DumpExternal prints the external callees of module code (debug aid for the effect table).
+func DumpExternal(p *core.Prog) {
+	seen := map[string]int{}
+	for _, fn := range p.Funcs() {
+		for _, b := range fn.Blocks {
+			for _, in := range b.Instrs {
+				if ci, ok := in.(ssa.CallInstruction); ok {
+					n := core.CalleeName(ci.Common())
+					if n == "" {
+						n = "<dynamic>"
+					}
+					if !strings.HasPrefix(n, core.ModPath) && !strings.HasPrefix(n, "("+core.ModPath) && !strings.HasPrefix(n, "(*"+core.ModPath) {
+						seen[n]++
+					}
+				}
+			}
+		}
+	}
+	var ks []string
+	for k := range seen {
+		ks = append(ks, k)
+	}
+	sort.Strings(ks)
+	for _, k := range ks {
+		fmt.Printf("%4d %s\n", seen[k], k)
 	}
 }
